@@ -68,3 +68,30 @@ Theorem C10_reencode_total : forall t c bs v c',
   flat_enc t v = OK bs \/ (flat_enc t v = Panic /\ 2 ^ 32 <= lenN bs).
 Proof. exact C10_reencode_total_lemma. Qed.
 Print Assumptions C10_reencode_total.
+
+(* ---- the flat decoder and the tree-backed view decoder agree (with C03): for every variable-size
+   type they accept exactly the same byte strings, and on an accepted input the view read back
+   through the typed getters is the flat decoder's value; both give the input back.
+   [zh] is the table of zero-subtree roots of the view side, any function with zh 0 = zero chunk. *)
+From Ztyp Require Import Tree View ReprProofs DecodeProofs SerProofs AgreeProofs.
+
+Theorem C10_accepts_what_the_view_decoder_accepts :
+  forall (zh : nat -> chunk), zh 0%nat = zero_chunk ->
+  forall t bs c,
+    wf_ty t = true -> small_params t = true -> sizes_ok t = true -> small_fields t = true ->
+    spec_is_fixed t = false -> lenN bs < 2 ^ 32 ->
+    ((exists n, view_deserialize zh t bs = OK n) <->
+     (exists v c', flat_decode t c bs = OK (v, c'))).
+Proof. exact decoders_accept_same. Qed.
+Print Assumptions C10_accepts_what_the_view_decoder_accepts.
+
+Theorem C10_same_value_as_the_view_decoder :
+  forall (zh : nat -> chunk), zh 0%nat = zero_chunk ->
+  forall t bs c n v c',
+    wf_ty t = true -> small_params t = true -> sizes_ok t = true -> small_fields t = true ->
+    spec_is_fixed t = false -> lenN bs < 2 ^ 32 ->
+    view_deserialize zh t bs = OK n -> flat_decode t c bs = OK (v, c') ->
+    (forall fuel, (ty_depth t <= fuel)%nat -> read_val fuel t n = OK v) /\
+    ser_node t n = OK bs /\ flat_enc t v = OK bs /\ repr zh t n v.
+Proof. exact decoders_same_value. Qed.
+Print Assumptions C10_same_value_as_the_view_decoder.
